@@ -97,6 +97,10 @@ impl Template {
                                         write!(w, "}}")?;
                                         Ok(())
                                     })?;
+                                    // slot content can be updated (by the child that owns the
+                                    // slot) before this template was ever updated: the closures
+                                    // then still see the tree of the creation call
+                                    declare_shortcut!("U", "U||Object.create(null)");
                                     declare_shortcut!("K", "U===true");
                                     w.declare_var_on_top_scope_init(|w, define_root_ident| {
                                         Node::to_proc_gen_define_children(
